@@ -139,7 +139,10 @@ pub(crate) fn resolved(derive: &Derive, features: &Features) {
             s.push(',');
         }
         first = false;
-        let _ = write!(s, "\"{key}\":{{\"enabled\":{enabled},\"mode\":\"{mode}\",\"name\":");
+        let _ = write!(
+            s,
+            "\"{key}\":{{\"enabled\":{enabled},\"mode\":\"{mode}\",\"name\":"
+        );
         esc(name, &mut s);
         s.push_str(",\"vis\":");
         esc(&v, &mut s);
